@@ -122,10 +122,45 @@ async def sk_batches_then_restart(hp, w, rnd, ctx):
     await w.observe()
 
 
+async def sk_batches_into_sparse_folders_then_restart(hp, w, rnd, ctx):
+    """Like the above, but the receiving folders are sparse: most of what they
+    ever held is gone and the newest messages survive, so the new messages'
+    numbers lie far above the message count (6 | 7 8, 27..30 | 31 32, ...)."""
+    w.foreign_violations = []
+    w.continue_past_foreign = ["C12"]
+    a = w.session()
+    for i in range(4):
+        await w.op_append(a, "INBOX", flags=rnd.choice([None, ["\\Seen"], ["\\Flagged"]]))
+    for name, total, keep, how in (("sp6", 6, 1, "copy"), ("sp30", 30, 4, "copy"), ("sp14", 14, 2, "deliver"), ("sp29", 29, 3, "move"), ("sp126", 126, 8, "copy")):
+        if name == "sp126" and ctx["tier"] == "quick" and ctx["seed"] % 2:
+            continue
+        await w.op_create(a, name)
+        for i in range(total):
+            await w.op_append(a, name, flags=rnd.choice([None, ["\\Seen"]]))
+        await w.op_select(a, name)
+        await w.op_store(a, list(range(1, total - keep + 1)), "add", ["\\Deleted"], silent=True)
+        await w.op_expunge(a)
+        await w.observe(names=[name])
+        if how == "deliver":
+            w.deliver(name, 3, unseen=[True, False, True])
+            await w.rig.advance(6)
+            await w.op_noop(a)
+        else:
+            await w.op_select(a, "INBOX")
+            await w.op_copy(a, [1, 2] if how == "copy" else [3, 4], name, move=(how == "move"))
+            if how == "move":
+                for i in range(2):
+                    await w.op_append(a, "INBOX")
+        w.stats["batches_into_sparse_folders"] += 1
+        await restart_compare(w)
+        a = w.sessions[0]
+    await w.observe()
+
+
 class C12(HistProp):
     prop = PROP
     names = ["INBOX", "other", "arch"]
-    skeletons = [sk_restart_every_step, sk_batches_then_restart]
+    skeletons = [sk_restart_every_step, sk_batches_then_restart, sk_batches_into_sparse_folders_then_restart]
     weights = {"append": 10, "store_del": 8, "store": 6, "expunge": 8, "uid_expunge": 3, "copy": 4, "move": 4, "deliver": 5, "create": 3, "delete": 3, "rename": 2,
                "rename_inbox": 1, "subscribe": 3, "advance": 4, "noop": 3}
     opts = {"create_names": ["other", "arch", "arch/sub", "tmp", "tmp/x"], "rename_targets": ["moved", "arch/moved", "deep/er", "saved"], "tolerate": ["keep-subscribed"]}
